@@ -153,7 +153,7 @@ Section ChainPinned.
     assert (Hlist : map (fun id => (stake (String.length pre) (pre ++ p) ++ literal_at T id)%string)
                         (level_row (t_clit T) 0 1) = map (append pre) (values lits ipre)).
     { rewrite stake_app, (chain_clit1 lits ipre). apply (chain_offer_list lits ipre pre). }
-    rewrite (levels_offer_extensions 0 tabs e T (pre ++ p) 1 (String.length pre) log Hi Hprw (chain_ccmd lits ipre)).
+    rewrite (levels_offer_extensions Pinned 0 tabs e T (pre ++ p) 1 (String.length pre) log Hi Hprw (chain_ccmd lits ipre)).
     - rewrite Hlist, offers_as_values. reflexivity.
     - rewrite Hlist, offers_as_values. intros E.
       assert (In (pre ++ v)%string (map (append pre) (filter (String.prefix p) (values lits ipre)))) as Hin.
@@ -169,7 +169,7 @@ Section ChainPinned.
     = Ok (mkresult 0 (map (append pre) (filter (String.prefix p) (values lits ipre))) []).
   Proof.
     intros Hi Hw Hpp Hpr Hex. unfold run_from. cbn [walk obind].
-    rewrite (chain_main_maxlevel lits ipre next). cbn [top_levels].
+    rewrite (chain_main_maxlevel lits ipre next). cbn [top_levels quirky].
     rewrite (chain_main_clit0 lits ipre next), (chain_csub0 lits ipre next), (chain_main_ccmd lits ipre next).
     cbn [map List.app obind]. cbn [top_subs_level]. rewrite (chain_subword_tables lits ipre next).
     rewrite (chain_subword_complete_pinned e p [] Hi Hpp Hpr Hex). cbn [obind List.app top_subs_level].
